@@ -7,7 +7,7 @@ From FlacWriters Require Import Params_proofs.
 From FlacReaders Require Readers Spec Ser RNum Seek.
 From FlacWriters Require Import Lists_proofs Writers_proofs.
 From FlacWriters Require Import Bytes_proofs Cross_proofs.
-From FlacE2E Require Import Bridge E2E SampleE2E Success ChannelE2E ByteE2E ByteSuccess ChannelSuccess ReadBridge ReadersE2E InterruptedE2E SeekE2E SeekReadE2E Transfer DecodedFile DamagedFile InterruptedBytes InterruptedChannels OutputBound NoPanicFile SizeBound.
+From FlacE2E Require Import Bridge E2E SampleE2E Success ChannelE2E ByteE2E ByteSuccess ChannelSuccess ReadBridge ReadersE2E InterruptedE2E SeekE2E SeekReadE2E Transfer DecodedFile DamagedFile InterruptedBytes InterruptedChannels OutputBound NoPanicFile SizeBound SizeBoundFronts.
 Import ListNotations.
 Open Scope N_scope.
 
@@ -843,6 +843,44 @@ Theorem C19_written_audio_size_bounded : forall o L md5, (forall l, length (md5 
     N.of_nat (length (frames_bytes (f_enc f))) <= blocks_bound bps blocks.
 Proof. exact written_audio_size_bounded. Qed.
 
+(* ... the same for FlacByteWriter and FlacChannelWriter runs *)
+Theorem C19_byte_written_audio_size_bounded : forall o L md5, (forall l, length (md5 l) = 16%nat) ->
+  forall p rate bps ch, rate < 2 ^ 20 -> 1 <= bps -> bps <= 32 -> 1 <= ch -> ch <= 8 ->
+  forall en wo total w (chunks : list (list N)),
+  options_wf wo ->
+  byte_new p en [] wo rate bps ch total = Ok w ->
+  Forall byte_ok (concat chunks) ->
+  let nb := bytes_per_sample_of bps in
+  let samples := decoded en (N.to_nat nb) (concat chunks) in
+  forallb (FlacCodec.Wf.fits bps) samples = true ->
+  let W := N.of_nat (length samples) / ch in
+  1 <= W -> N.of_nat (length samples) < 2 ^ 36 ->
+  match total with Some T => T = nb * (ch * W) | None => True end ->
+  exists f blocks,
+    byte_run (encB o L rate bps) md5 p w chunks = Ok f /\
+    concat (map FlacCodec.Stream.interleave_frame blocks) =
+      firstn (N.to_nat ch * (length samples / N.to_nat ch)) samples /\
+    N.of_nat (length (frames_bytes (f_enc f))) <= blocks_bound bps blocks.
+Proof. exact byte_written_audio_size_bounded. Qed.
+
+Theorem C19_channel_written_audio_size_bounded : forall o L md5, (forall l, length (md5 l) = 16%nat) ->
+  forall p rate bps ch, rate < 2 ^ 20 -> 1 <= bps -> bps <= 32 -> 1 <= ch -> ch <= 8 ->
+  forall wo total w (chunks : list (list (list Z))),
+  options_wf wo ->
+  channel_new p [] wo rate bps ch total = Ok w ->
+  Forall (chunk_ok (N.to_nat ch)) chunks ->
+  let samples := concat (multizip (cconcat (N.to_nat ch) chunks)) in
+  forallb (FlacCodec.Wf.fits bps) samples = true ->
+  let W := N.of_nat (length samples) / ch in
+  1 <= W -> N.of_nat (length samples) < 2 ^ 36 ->
+  match total with Some T => T = W | None => True end ->
+  exists f blocks,
+    channel_run (encB o L rate bps) md5 p w chunks = Ok f /\
+    concat (map FlacCodec.Stream.interleave_frame blocks) =
+      firstn (N.to_nat ch * (length samples / N.to_nat ch)) samples /\
+    N.of_nat (length (frames_bytes (f_enc f))) <= blocks_bound bps blocks.
+Proof. exact channel_written_audio_size_bounded. Qed.
+
 Print Assumptions C07_decoded_file_is_read_bytes_channels.
 Print Assumptions C03_valid_file_is_read.
 Print Assumptions C07_decoded_file_is_read.
@@ -914,3 +952,5 @@ Print Assumptions C15_length_contract_byte.
 Print Assumptions C15_length_contract_channel.
 Print Assumptions C08_partial_dropped_byte.
 Print Assumptions C19_written_audio_size_bounded.
+Print Assumptions C19_byte_written_audio_size_bounded.
+Print Assumptions C19_channel_written_audio_size_bounded.
